@@ -203,11 +203,11 @@ def reaching_events(cfg: CFG, name: str, at: Node) -> list[tuple[Node, str, ast.
         if n is at:
             continue
         # does n reach `at` without passing another killing definition?
-        p = cfg.path_avoiding(n, {at}, killers - {n} if kind in ("assign", "for", "with") else killers)
+        p = cfg.path_avoiding(n, {at}, (killers - {n, at}) if kind in ("assign", "for", "with") else (killers - {at}))
         if p is not None:
             out.append((n, kind, a))
     # parameter / undefined on some path: a path entry->at avoiding all killers
-    if cfg.path_avoiding(cfg.entry, {at}, killers) is not None:
+    if cfg.path_avoiding(cfg.entry, {at}, killers - {at}) is not None:
         out.append((cfg.entry, "entry", cfg.func))
     return out
 
@@ -263,3 +263,48 @@ def _local_defs(f: FuncInfo, name: str) -> list[ast.expr]:
         if isinstance(n, ast.comprehension) and any(isinstance(x, ast.Name) and x.id == name for x in ast.walk(n.target)):
             out.append(n.iter)
     return out
+
+
+def expand_forms(prog: Program, f: FuncInfo, g: CFG, e: ast.expr, at: Node, limit: int = 24, _depth: int = 0) -> list[ast.expr]:
+    """All expressions `e` may denote at CFG node `at`, with non-parameter locals replaced by their reaching definitions
+    (each definition expanded at its own program point, so sequential re-assignments of one name are followed correctly)."""
+    if _depth > 8:
+        return [e]
+    params = set(f.params) | set(f.kwonly)
+    names = []
+    for x in ast.walk(e):
+        if isinstance(x, ast.Name) and isinstance(x.ctx, ast.Load) and x.id not in params and x.id not in names and x.id != f.self_name:
+            names.append(x.id)
+    outs = [e]
+    for nm in names:
+        evs = reaching_events(g, nm, at)
+        if not evs or any(k != "assign" for _, k, _ in evs):
+            continue
+        repls: list[ast.expr] = []
+        for node_d, _, a in evs:
+            tgt = a.targets[0] if isinstance(a, ast.Assign) else getattr(a, "target", None)
+            if not isinstance(tgt, ast.Name) or getattr(a, "value", None) is None:
+                repls = []
+                break
+            repls.extend(expand_forms(prog, f, g, a.value, node_d, limit, _depth + 1))  # type: ignore[union-attr]
+        if not repls:
+            continue
+        new = []
+        for cur in outs:
+            for r in repls:
+                new.append(_substitute(cur, nm, r))
+                if len(new) >= limit:
+                    break
+            if len(new) >= limit:
+                break
+        outs = new
+    return outs
+
+
+def _substitute(e: ast.expr, name: str, repl: ast.expr) -> ast.expr:
+    class T(ast.NodeTransformer):
+        def visit_Name(self, node: ast.Name):  # noqa: N802
+            if node.id == name and isinstance(node.ctx, ast.Load):
+                return ast.parse(ast.unparse(repl), mode="eval").body
+            return node
+    return T().visit(ast.parse(ast.unparse(e), mode="eval").body)
